@@ -24,6 +24,10 @@ type Options struct {
 	Deadline    time.Time // zero = none
 	ReplayEvery int       // re-run every N-th execution from its recorded choices (0 = 64)
 	GroupDepth  int       // see vrt.Config.GroupDepth
+	// OutcomeIsProperty: the outcome itself is what the property speaks about (determinism): the same schedule
+	// observed with another outcome (same choices, same number of steps) is a failure of the code under test,
+	// not a replay divergence of the engine
+	OutcomeIsProperty bool
 }
 
 type Failure struct {
@@ -137,7 +141,14 @@ func Explore(opt Options, mk Harness) *Result {
 			full := append([]int{}, s.Choices...)
 			s2, v2, o2 := runOnce(full, false)
 			res.Replays++
-			if v2 != v || o2 != o || !eqInts(s2.Choices, full) || s2.Steps != s.Steps {
+			if opt.OutcomeIsProperty && v2 == v && o2 != o && eqInts(s2.Choices, full) && s2.Steps == s.Steps {
+				res.Outcomes[o2]++
+				msg := "the same schedule run twice yields two different outcomes: the answer depends on something besides scheduling and map iteration order"
+				if !failed[msg] {
+					failed[msg] = true
+					res.Failures = append(res.Failures, Failure{Verdict: msg, Choices: full})
+				}
+			} else if v2 != v || o2 != o || !eqInts(s2.Choices, full) || s2.Steps != s.Steps {
 				res.HarnessError = fmt.Sprintf("ENGINE nondeterministic replay: (%q,%q,%d) vs (%q,%q,%d)", v, o, s.Steps, v2, o2, s2.Steps)
 				res.Capped = "engine error"
 				return
